@@ -1,5 +1,7 @@
 """Per-property plans: what is enumerated by TLC, what is generated, and how much, per tier."""
 import graph
+import simple
+from common import seed
 
 Q, T = "quick", "thorough"
 
@@ -98,4 +100,32 @@ def g16(pid, tier, replay):
     return graph.run_graph(pid, tier, plan, replay)
 
 
-CHECKS = {"C08": g08, "C09": g09, "C10": g09, "C11": g11, "C12": g12, "C15": g15, "C16": g16}
+ASSUME_NODE = [
+    "strings are atoms for the specification; separator characters are reported to it as the derived fact `sep`",
+    "Schema.tla is generated from the live descriptors on every run (fields added later are covered)",
+    "nested contact lists are ordered for completeness and unordered for soundness (the property does not decide it)",
+]
+
+
+def n13(pid, tier, replay):
+    n = 40 if tier == Q else 400
+    plan = {
+        "module": "TraceNode", "cfg": "TraceNode.cfg",
+        "own": r"^eq\..*$" if pid == "C13" else r"^diff\..*$",
+        "design": [("MC_NodeLaws", "NodeLaws_quick.cfg" if tier == Q else "NodeLaws_thorough.cfg", 3000)],
+        "jobs": [{"cmd": ["node-run", "--mode", "eq" if pid == "C13" else "diff", "--n", str(n), "--seed", str(seed() * 100 + i)],
+                  "label": "shard%d" % i} for i in range(12)],
+        "replay_cmd": lambda path: ["node-run", "--replay", path],
+        "result_keys": ("eq", "eqba", "eqaa", "eqbb", "csa", "csb", "isnil", "count", "added", "removed", "ab", "bc", "ac", "how"),
+        "nontrivial": lambda e: len(e.get("a", {})) > 2 or len(e.get("b", {})) > 2,
+        "rule": "per base node (every schema field populated by reflection with probability 0.15/0.4/0.8): identical clone, "
+                "shuffle of every repeated field, single-location perturbation at EVERY reachable schema path (both "
+                "directions for diff), sub-second date change, independent node over the same pools, overlay; plus "
+                "separator attacks, transitivity triples, edge and node-list pairs; non-trivial = an operand with an "
+                "attribute beyond id and type; distinct by hash of the operands",
+        "assumptions": ASSUME_NODE,
+    }
+    return simple.run_simple(pid, tier, plan, replay)
+
+
+CHECKS = {"C13": n13, "C14": n13, "C08": g08, "C09": g09, "C10": g09, "C11": g11, "C12": g12, "C15": g15, "C16": g16}
